@@ -29,6 +29,11 @@ def _unquote_impl(string, only_printable=False, unsafe=None):
     res = bytearray(bits[0])
     append = res.extend
 
+    # NOTE: when the percent sign itself must remain quoted, a stray one must
+    # be quoted too, lest it forms a new escape sequence with what follows
+    # once unquoted (e.g. "%%341" -> "%41")
+    stray = b"%25" if unsafe is not None and b"%" in unsafe else b"%"
+
     for item in bits[1:]:
         b = HEX_TO_BYTE.get(item[:2])
 
@@ -43,7 +48,7 @@ def _unquote_impl(string, only_printable=False, unsafe=None):
                 append(b)
                 append(item[2:])
         else:
-            append(b"%")
+            append(stray)
             append(item)
 
     return res
@@ -85,10 +90,10 @@ def unquote(string, only_printable=False, unsafe=None, normalize_space=False):
 # NOTE: to safely unquote we don't need to replace invalid character because it would
 # imply that the parsed url was invalid from the start (except for spaces)
 
-UNSAFE_FOR_AUTH_ITEM = b" @:/?#"
-UNSAFE_FOR_PATH = b" /?#"
-UNSAFE_FOR_QUERY_ITEM = b" &=#"
-UNSAFE_FOR_FRAGMENT = b" "
+UNSAFE_FOR_AUTH_ITEM = b" %@:/?#"
+UNSAFE_FOR_PATH = b" %/?#"
+UNSAFE_FOR_QUERY_ITEM = b" %&=#"
+UNSAFE_FOR_FRAGMENT = b" %"
 
 # NOTE: those method should only be used on parsed urls to canonicalize/normalize.
 safely_unquote_auth_item = partial(
